@@ -37,6 +37,8 @@ type scen struct {
 	GapMs     int      `json:"gapms"`     // gap between frames for pace "gap" (default 25)
 	Reverse   bool     `json:"reverse"`   // AGWPE_REVERSE_TO_FROM=true in the library's environment (affects the Y query of inbound connections only)
 	DiscAfter bool     `json:"discafter"` // the remote station disconnects right after its last frame; the application reads only afterwards
+	ShortY    bool     `json:"shorty"`    // the TNC's replies to Y polls are malformed (2 data bytes) once the application closes
+	MaxFrame  int      `json:"maxframe"`  // -1: the TNC reports MAXFRAME 0 in its capabilities reply (default 4)
 	Redial    bool     `json:"redial"`    // inbound: after closing, dial the same station again on the same port and receive again
 	Foreign   bool     `json:"foreign"`   // interleave frames for other callsigns / ports
 	Malform   string   `json:"malform"`
@@ -151,6 +153,9 @@ func runScenario(sc scen, rng *rand.Rand) []rec.Event {
 	sim.ConnectReply = sc.Reply
 	if sim.ConnectReply == "" {
 		sim.ConnectReply = "ok"
+	}
+	if sc.MaxFrame == -1 {
+		sim.MaxFrame = 0
 	}
 	var tp *agwpe.TNCPort
 	var openErr error
@@ -368,6 +373,11 @@ func runScenario(sc scen, rng *rand.Rand) []rec.Event {
 			log.Print("MARK end")
 		}
 		close(stopRead)
+		if sc.ShortY {
+			sim.mu.Lock()
+			sim.ShortReply = map[byte]int{'Y': 2}
+			sim.mu.Unlock()
+		}
 		sim.Note("closeCall", 0)
 		guard(func() { conn.Close() })
 		closed = true
@@ -713,6 +723,8 @@ func Main(args []string) int {
 		s.ReadBuf = 16
 	})
 	mk(func(s *scen) { s.Kind = "inbound"; s.Frames = []int{5, 6}; s.Pace = "gap-then-disc"; s.ReadWait = 500 })
+	mk(func(s *scen) { s.Kind = "inbound"; s.Frames = []int{9, 9}; s.ShortY = true })
+	mk(func(s *scen) { s.Kind = "outbound"; s.Writes = []int{10, 20, 30}; s.MaxFrame = -1 })
 	mk(func(s *scen) { s.Kind = "inbound"; s.Frames = []int{4, 4, 5}; s.Redial = true })
 	mk(func(s *scen) { s.Kind = "inbound"; s.Frames = []int{40, 30, 20, 10}; s.Redial = true; s.ReadBuf = 16 })
 	// bursts with an idle reader: inside and far outside the pipeline's capacity
